@@ -52,6 +52,21 @@ YIELD="${VERIF_YIELD:-}"
 if grep -n "reflect\.Select\|sync\.Map\|sync\.Cond" "$S"/kc/*.go "$S"/kc/join/*.go "$S"/kc/types/*/*.go 2>/dev/null | grep -v _test.go | grep -v "^$S/kc/types/gen"; then
   fail "unsupported primitive in instrumented code"
 fi
+# typed glue: one file per typed package, instantiated from the template
+gen_glue() { sed -e "s/PKG/$1/g" -e "s#APIIMPORT#$2#g" -e "s/APITYPE/$3/g" "$S/sim/scen/typed_glue.go.tmpl" > "$S/sim/scen/zz_typed_$1.go"; }
+gen_glue pod k8s.io/api/core/v1 Pod
+gen_glue service k8s.io/api/core/v1 Service
+gen_glue secret k8s.io/api/core/v1 Secret
+gen_glue node k8s.io/api/core/v1 Node
+gen_glue event k8s.io/api/core/v1 Event
+gen_glue replicationcontroller k8s.io/api/core/v1 ReplicationController
+gen_glue ingress k8s.io/api/networking/v1beta1 Ingress
+gen_glue job k8s.io/api/batch/v1 Job
+gen_glue daemonset k8s.io/api/apps/v1 DaemonSet
+gen_glue deployment k8s.io/api/apps/v1 Deployment
+gen_glue replicaset k8s.io/api/apps/v1 ReplicaSet
+gen_glue statefulset k8s.io/api/apps/v1 StatefulSet
+rm -f "$S/sim/scen/typed_glue.go.tmpl"
 "$KCINSTR" -dir "$S/sim" -tags verif,kcinstr -mapfn MapKeysSorted ./world/... ./scen/... || exit 2
 ( cd "$S/sim" && go build -tags verif,kcinstr -trimpath -o "$S/worker" ./cmd/worker ) || fail "go build of the instrumented tree failed"
 echo "build_sim: ok $S/worker"
